@@ -81,6 +81,48 @@ func checkC02Constructed(c c02ConCase) error {
 		}
 		stats.Class("metamorphic-tag-ext-unprotected")
 	}
+	// the one-shot helpers: what the signer is handed is the structure over the protected
+	// bytes of the message the helper returns
+	if c.Spec.Kind != refcose.KSign && len(c.Spec.Sigs) == 1 {
+		for variant := 0; variant < 2; variant++ {
+			h := bridge.Headers(c.Spec.Prot, c.Spec.Unprot)
+			if len(c.Spec.Prot.M) == 0 {
+				// an empty protected bucket may be a nil map or an empty one
+				h.Protected = nil
+				if variant == 1 {
+					h.Protected = cose.ProtectedHeader{}
+				}
+			} else if variant == 1 {
+				break
+			}
+			spy := &bridge.SpySigner{Alg: cose.Algorithm(c.Spec.Sigs[0].Key.Alg), Inner: dummySig}
+			var wire []byte
+			var err error
+			rnd := refcose.NewEntropy(nil)
+			if c.Spec.Kind == refcose.KSign1 {
+				wire, err = cose.Sign1(rnd, spy, h, c.Spec.Payload, c.Spec.Ext())
+			} else {
+				wire, err = cose.Sign1Untagged(rnd, spy, h, c.Spec.Payload, c.Spec.Ext())
+			}
+			if err != nil {
+				stats.Class("helper-refused/" + shortErr(err))
+				continue
+			}
+			env, err := refcose.ParseEnv(c.Spec.Kind, wire)
+			if err != nil {
+				return finding("helper-output-unparseable", "%v: %x", err, wire)
+			}
+			payload, _ := env.PayloadBytes()
+			want := refcose.SigStructure1(env.ProtContent(), c.Spec.Ext(), payload)
+			if got := spy.Last(); !bytes.Equal(got, want) {
+				return finding("tbs-mismatch/helper", "one-shot helper for %v: the signer was handed a structure over other protected bytes / payload than the returned message carries\n got=%x\nwant=%x\nwire=%x", c.Spec.Kind, got, want, wire)
+			}
+			if !bytes.Equal(env.Sig.Content, dummySig(want)) {
+				return finding("tbs-mismatch/helper", "one-shot helper: returned signature is not the signer's output")
+			}
+			stats.Class(fmt.Sprintf("helper/%v/protected-nil=%v", c.Spec.Kind, h.Protected == nil))
+		}
+	}
 	stats.Class("constructed/" + c.Spec.Kind.String())
 	return nil
 }
